@@ -89,6 +89,22 @@ def check(ctx, node, assigns, replay):
             return True
         ctx.violation(f"C11:before-raised-{type(e).__name__}", f"solving the hierarchy before flatten raised {type(e).__name__}: {str(e)[:70]}", replay)
         return False
+    # the end-to-end model of the hierarchy (defaults registered at placement, dictionaries resolved and renamed on the way down,
+    # every level solved bottom-up: PNet.psolve) on the same calls
+    if hier.count_placements(node) <= 9:
+        for i, p in enumerate(assigns):
+            mo, Tm, dfl = hier.model_psolve(ctx, node, p, names)
+            if mo != "ok":
+                ctx.disagreement("C11.model.psolve", f"model: {mo}", replay)
+                break
+            ctx.tag("model:psolve")
+            if Tm.size and float(np.max(np.abs(Tm - before[i]))) > 1e-9:
+                ctx.disagreement("C11.model.psolve", f"parametric hierarchical model differs from solve({sorted(p)}) of the code before flatten()", replay)
+                break
+            real_d = {k: float(v) for k, v in d_before.items() if v is not None}
+            if i == 0 and ({k: v for k, v in dfl.items() if k != "__none__"} != real_d):
+                ctx.disagreement("C11.model.defaults", f"default_params of the model {dfl} vs the code {real_d}", replay)
+                break
     # sometimes a placed sub-solver is flattened in place first (its own pin table is re-ordered by that); the parent must
     # still see the same block, before and after its own flatten()
     import random as _random
